@@ -44,6 +44,13 @@ THEOREMS = [
     "Pyribs.GenFProofs.ascent_matches",
     "Pyribs.GenFProofs.adam_matches",
     "Pyribs.GenFProofs.cma_params_match",
+    "Pyribs.GenFProofs.cma_tell_steps_match",
+    "Pyribs.GenFProofs.sep_tell_steps_match",
+    "Pyribs.GenFProofs.cov_updates_match",
+    "Pyribs.GenFProofs.sep_params_match",
+    "Pyribs.GenFProofs.lm_matches",
+    "Pyribs.GenFProofs.openai_norm_rank_matches",
+    "Pyribs.GenFProofs.openai_norm_rank_ends",
     # T18.1
     "Pyribs.C18.weights_of_values",
     "Pyribs.C18.weights_pos_decreasing_sum_one",
